@@ -4,6 +4,7 @@ import (
 	"crypto/rand"
 	"crypto/sha256"
 	"encoding/binary"
+	"runtime"
 	"sync"
 	"sync/atomic"
 )
@@ -13,54 +14,75 @@ import (
 // crypto/rand.Read, which honours an overridden Reader.  Every impl call that
 // consumes randomness is wrapped in withRand(seed, script, f): the stream it
 // sees is script || SHA256(seed||0) || SHA256(seed||1) || ... and depends on
-// nothing else, so each case replays byte-identically.  withRand holds a global
-// lock, so concurrent workers cannot interleave their streams.
-type detReader struct {
-	active bool
-	seed   []byte
-	ctr    uint64
-	buf    []byte
-	used   int
+// nothing else, so each case replays byte-identically.  Streams are keyed by the
+// calling goroutine, so concurrent workers cannot interleave their streams.
+type detStream struct {
+	seed []byte
+	ctr  uint64
+	buf  []byte
+	used int
 }
 
+type detReader struct{}
+
 var (
-	det        = &detReader{}
-	randMu     sync.Mutex
-	strayReads int64 // reads outside withRand (must stay 0)
+	streams    sync.Map // goroutine id -> *detStream
+	strayReads int64    // reads outside withRand (must stay 0)
+	strayMu    sync.Mutex
+	stray      = &detStream{seed: []byte("stray")}
 )
 
-func installDetRand() { rand.Reader = det }
+func installDetRand() { rand.Reader = detReader{} }
 
-func (d *detReader) Read(p []byte) (int, error) {
-	if !d.active {
-		atomic.AddInt64(&strayReads, 1)
-	}
-	for i := range p {
-		if len(d.buf) == 0 {
-			var c [8]byte
-			binary.LittleEndian.PutUint64(c[:], d.ctr)
-			d.ctr++
-			h := sha256.Sum256(append(append([]byte("c19/rand/"), d.seed...), c[:]...))
-			d.buf = h[:]
+// gid returns the current goroutine's id (parsed from the stack header
+// "goroutine N [running]:").
+func gid() uint64 {
+	var buf [40]byte
+	n := runtime.Stack(buf[:], false)
+	var id uint64
+	for _, c := range buf[len("goroutine "):n] {
+		if c < '0' || c > '9' {
+			break
 		}
-		p[i] = d.buf[0]
-		d.buf = d.buf[1:]
+		id = id*10 + uint64(c-'0')
 	}
-	d.used += len(p)
+	return id
+}
+
+func (s *detStream) read(p []byte) {
+	for i := range p {
+		if len(s.buf) == 0 {
+			var c [8]byte
+			binary.LittleEndian.PutUint64(c[:], s.ctr)
+			s.ctr++
+			h := sha256.Sum256(append(append([]byte("c19/rand/"), s.seed...), c[:]...))
+			s.buf = h[:]
+		}
+		p[i] = s.buf[0]
+		s.buf = s.buf[1:]
+	}
+	s.used += len(p)
+}
+
+func (detReader) Read(p []byte) (int, error) {
+	if v, ok := streams.Load(gid()); ok {
+		v.(*detStream).read(p)
+		return len(p), nil
+	}
+	atomic.AddInt64(&strayReads, 1)
+	strayMu.Lock()
+	stray.read(p)
+	strayMu.Unlock()
 	return len(p), nil
 }
 
-// withRand runs f with the deterministic stream for (seed, script) and returns
-// the number of random bytes f consumed.
+// withRand runs f (on the calling goroutine) with the deterministic stream for
+// (seed, script) and returns the number of random bytes f consumed.
 func withRand(seed string, script []byte, f func()) int {
-	randMu.Lock()
-	defer randMu.Unlock()
-	det.seed = []byte(seed)
-	det.ctr = 0
-	det.buf = append([]byte(nil), script...)
-	det.used = 0
-	det.active = true
-	defer func() { det.active = false }()
+	s := &detStream{seed: []byte(seed), buf: append([]byte(nil), script...)}
+	id := gid()
+	streams.Store(id, s)
+	defer streams.Delete(id)
 	f()
-	return det.used
+	return s.used
 }
